@@ -391,7 +391,11 @@ namespace ipr {
          void visit(const Phantom&) final { } // nothing to print
          void visit(const Enclosure& e) final
          {
-            static constexpr const char* syntax[] = { "\0\0", "()", "{}", "[]", "<>" };
+            if (e.delimiters() == Delimiter::Nothing) {
+               pp << xpr_expr(e.expr());
+               return;
+            }
+            static constexpr const char* syntax[] = { "", "()", "{}", "[]", "<>" };
             const auto delimiters = syntax[util::rep(e.delimiters())];
             pp << token(delimiters[0]) << xpr_expr(e.expr()) << token(delimiters[1]);
          }
